@@ -1575,6 +1575,28 @@ func runC20(tier string, seed int64, outdir string, replay string) error {
 		}
 	}
 
+	// the recreate path, systematically: account stored, CA re-installed, then one issuance with a
+	// fault at / a crash before each of its operations (LoadReg LoadKey newOrder DeleteReg DeleteKey
+	// LoadReg Lock LoadReg newAccount StoreReg StoreKey Unlock newOrder), then one more issuance
+	for c := 0; c < 2; c++ {
+		for at := 0; at < 13; at++ {
+			for _, crash := range []bool{false, true} {
+				if tier != "thorough" && (at+c)%2 == 1 && !(at == 3 || at == 4) {
+					continue
+				}
+				sc := cat(one(St(0, c)), rep(S(0), 9), one(Rs(c)), one(St(1, c)), rep(S(1), at))
+				if crash {
+					sc = append(sc, c20Action{K: "crash", T: 1})
+				} else {
+					sc = append(sc, F(1))
+				}
+				if err := addHist("seq-recreate", "a@example.com", []int{c, c, c}, c20Scripted(sc), map[string]any{"shape": "directed", "at": at, "crash": crash}); err != nil {
+					return err
+				}
+			}
+		}
+	}
+
 	// ---- generated histories
 	nHist := 260
 	nURL := 1500
